@@ -259,6 +259,28 @@ func runC06(w *World, r *Report) {
 				}
 			}
 			r.Check(ok, "C06-R2", cons, al.Pos(), "TaskID from "+w.accessPath(tid), det)
+			// the event is delivered, not offered: it is handed to the event channel by a plain (blocking) send, never
+			// by a select that can give up (default / timeout / other case)
+			sent, droppable := false, false
+			for _, g := range fam.Funcs {
+				eachInstr(g, func(in ssa.Instruction) {
+					switch x := in.(type) {
+					case *ssa.Send:
+						if baseObject(fam, x.X) == ssa.Value(al) {
+							sent = true
+						}
+					case *ssa.Select:
+						for _, st := range x.States {
+							if st.Dir == types.SendOnly && st.Send != nil && baseObject(fam, st.Send) == ssa.Value(al) {
+								droppable = true
+							}
+						}
+					}
+				})
+			}
+			if sent || droppable {
+				r.Check(sent && !droppable, "C06-R2", cons+" | delivered by a blocking send", al.Pos(), "plain send", "the error event is offered through a select (default / other case): when the event channel is full the event is dropped, nobody pauses the task and the failing message is silently skipped")
+			}
 		}
 	}
 
